@@ -2726,7 +2726,9 @@ impl Compiler {
                     }
                 }
                 _ => {
-                    let max_batch_size = self.frame().available_registers_count() as usize;
+                    // With no registers available, the register limit error is reported when
+                    // a register is requested for the first element.
+                    let max_batch_size = (self.frame().available_registers_count() as usize).max(1);
                     for elements_batch in elements.chunks(max_batch_size) {
                         let stack_count = self.stack_count();
                         let start_register = self.frame().next_temporary_register();
